@@ -38,6 +38,8 @@ func init() {
 				Edits: []Edit{{File: "util/bytes.go", Old: "(?:;[a-zA-Z\\\\d]*)*)?\" +", New: "(?:;[^\\u0007]*)*)?\" +"}}},
 			{ID: "C10-retry-bound-3", Desc: "password retry bound 3", Rule: "C10/at-most-twice",
 				Edits: []Edit{{File: "channel/auth.go", Old: "\tpasswordSeenMax   = 2", New: "\tpasswordSeenMax   = 3"}}},
+			{ID: "C10-password-prompt-wins", Desc: "telnet login skips the user-name answer when the password pattern matches the same text", Rule: "C10/one-answer-per-pass",
+				Edits: []Edit{{File: "channel/auth.go", Old: "\t\tif c.UsernamePattern.Match(b) {\n\t\t\tb = []byte{}\n\n\t\t\tuCount++", New: "\t\tif c.UsernamePattern.Match(b) && !c.PasswordPattern.Match(b) {\n\t\t\tb = []byte{}\n\n\t\t\tuCount++"}}},
 			{ID: "C10-username-gets-password", Desc: "telnet answers the user-name prompt with the password", Rule: "C10/credential-prompt",
 				Edits: []Edit{{File: "channel/auth.go", Old: "\t\t\terr = c.WriteAndReturn(u, true)", New: "\t\t\terr = c.WriteAndReturn(p, true)"}}},
 			{ID: "C10-passphrase-on-password-prompt", Desc: "ssh answers the password prompt with the passphrase when no password is set", Rule: "C10/credential-prompt",
@@ -151,6 +153,8 @@ func runC10(c *Ctx, r *Report) {
 	checkAuthBufferReset(c, r, "C10/auth-reset")
 	r.Rule("C10/worker-nil-result", "a login worker that can answer nil (when told to stop) is only told to stop by the deferred cancel of the function that reads its answer", 2)
 	checkWorkerNilResult(c, r, "C10/worker-nil-result")
+	r.Rule("C10/one-answer-per-pass", "on the true edge of a credential prompt's match the login loop types nothing but that prompt's own credential before it reads the next chunk", 4)
+	checkOneAnswerPerPass(c, r, "C10/one-answer-per-pass")
 	war := c.LookupFunc("channel", "Channel", "WriteAndReturn")
 	if war == nil {
 		r.Anchor("C10/credential-prompt", "(*channel.Channel).WriteAndReturn")
@@ -531,6 +535,7 @@ func checkOpenCleanup(c *Ctx, r *Report) {
 	}
 	// requeue
 	okRq := false
+	extraGuard := ""
 	for _, ci := range staticCallsTo(open, requeue) {
 		call := ci.(*ssa.Call)
 		arg := call.Call.Args[1]
@@ -548,6 +553,27 @@ func checkOpenCleanup(c *Ctx, r *Report) {
 			return isLen && isC && k == 0 && ((bo.Op == token.GTR && t) || (bo.Op == token.NEQ && t) || (bo.Op == token.EQL && !t) || (bo.Op == token.LEQ && !t))
 		})
 		okRq = fromAuth && guardOK
+		// ... and by nothing else that depends on the kind of login: whatever was consumed, by either dialogue, goes back
+		for _, ec := range edgeConds(call.Block()) {
+			v, _ := unwrapNot(ec.Cond)
+			if x, _, isNil := nilCheck(ec.Cond); isNil && (x == arg || isErrorType(x.Type())) {
+				continue
+			}
+			if bo, ok := v.(*ssa.BinOp); ok {
+				if _, isLen := linOf(bo.X, 0).coef["len("+arg.Name()+")"]; isLen {
+					continue
+				}
+			}
+			if f, _, ok := fieldLoad(v); ok && f != nil && types.Identical(f.Type().Underlying(), types.Typ[types.Bool]) {
+				continue
+			}
+			extraGuard = fmt.Sprintf("the requeue at %s additionally depends on the condition at %s: what one kind of login consumed (the banner and first prompt of a telnet session, the NETCONF hello of an ssh session) is not put back", c.Pos(call.Pos()), c.Pos(ec.Cond.Pos()))
+		}
+	}
+	if extraGuard != "" {
+		r.Bad(rule, "Open requeues whatever kind of login consumed it", c.Pos(open.Pos()), extraGuard)
+	} else if okRq {
+		r.OK(rule, "Open requeues whatever kind of login consumed it", c.Pos(open.Pos()), "the requeue depends on nothing but the bytes being there")
 	}
 	r.Check(okRq, rule, "Open requeues what the login consumed", c.Pos(open.Pos()), "Requeue(b) when len(b) > 0",
 		"the bytes read during login are not put back (exactly when there are any): the first operation after Open misses the prompt / NETCONF hello that login already consumed")
